@@ -141,6 +141,9 @@ func c02ValidateChain(r *Run, fn *ssa.Function) {
 		r.Check("ValidateChain:expiry-of-leaf", r.D.D(na) == leaf+".NotAfter", r.Where(c), "expiry is judged on "+clipStr(r.D.D(na), 140))
 		got := r.ValueUnder(fn, now, Sigma{"(time.Time).IsZero(p1.currentTime)": "F"})
 		r.Check("ValidateChain:configured-time-used", got == "p1.currentTime", r.Where(c), "with a configured current time, expiry is judged at "+got)
+		// … and at the wall clock when none is configured (the zero time is year 1: nothing would ever be expired)
+		got0 := r.ValueUnder(fn, now, Sigma{"(time.Time).IsZero(p1.currentTime)": "T"})
+		r.Check("ValidateChain:wall-clock-by-default", got0 == "time.Now()", r.Where(c), "without a configured current time, expiry is judged at "+got0)
 	}
 	for _, k := range r.bindAtom(fn, RuleAtom{Pat: "*[0].IsCA"}) {
 		r.Check("ValidateChain:CA-bit-of-leaf", k == leaf+".IsCA", r.FnPos(fn), "CA-only filter reads "+clipStr(k, 140))
